@@ -8,6 +8,7 @@ RULE = ("Every parser entry point (~60 Read*/New*FromBytes functions) is run on 
         "tails, unsorted/duplicate keys, size +-1; all composite structures over their shape dimensions (one-at-a-time + seeded random "
         "combinations), each also with appended data and, via Sweep, on every prefix. Non-trivial = the parser accepted the input and a "
         "serialisation was compared with the consumed bytes; distinct = distinct vector content.")
+RULE += (' Every Read/Twins event also records query stability (all read-only methods of the accepted value in two passes, then the serialisation again), and a Chain of kept serialisations of two values of every structure checks that a serialisation a caller still holds is not overwritten by later calls.')
 ASSUME = [common.TRUSTED, "'accepted' for ReadMapping/NewMapping = error list empty or only the documented 'data exists beyond length of mapping' warning",
           "ReadLeaseSet returns no remainder: its serialisation must be a prefix of the input (and have the reference length when the reference accepts)"]
 META = {
